@@ -669,7 +669,7 @@ def build_case(cid, seed):
             c2 = [(k, i) for k in body for i in simple_slots(k, lambda c, v: v != '' and bool(c.valid_codes))]
             if c2:
                 k, i = rnd.choice(c2)
-                segs[k][1][i] = [rnd.choice(['ZZ', special(3), 'Z<'])]
+                segs[k][1][i] = [clean(rnd.choice(['ZZ', special(3), 'Z<']), delims) or 'ZZ']
         elif kind == 'too_long':
             c2 = [(k, i) for k in body for i in simple_slots(k, lambda c, v: v != '')]
             if c2:
